@@ -617,7 +617,7 @@ MUTANTS = [
     Mut("osc-strict-decode", _V, "TermCanvas.parse_osc", "decode(\"utf-8\", \"replace\")", "decode(\"utf-8\")", "EXC|", note="anchor depends on the fixed tree's decode call"),
     Mut("csi-sanitise-declared-only", _V, "TermCanvas.parse_csi", "for i in range(len(escbuf)):", "for i in range(number_of_args):", "NULLABLE|"),
     Mut("resize-width-stored-late", _V, "TermCanvas.resize", "        self.width = width\n\n        if height > self.height:", "        if height > self.height:", "ORDER|vterm.TermCanvas.resize"),
-    Mut("cursor-set-unclamped", _V, "TermCanvas.set_term_cursor", "self.term_cursor = self.constrain_coords(x, y)", "self.term_cursor = (x, y)", "WRITER|"),
+    Mut("cursor-set-unclamped", _V, "TermCanvas.set_term_cursor", "self.term_cursor = x, y = self.constrain_coords(x, y)", "self.term_cursor = (x, y)", "WRITER|"),
     Mut("insert-chars-unbalanced", _V, "TermCanvas.insert_chars", "            self.term[y].insert(x, char_spec)\n            self.term[y].pop()\n", "            self.term[y].insert(x, char_spec)\n", "PAIR|"),
     Mut("remove-lines-shared-blank", _V, "TermCanvas.remove_lines", "        while lines > 0:\n            self.term.pop(row)\n            self.term.insert(self.scrollregion_end, self.empty_line())", "        blank = self.empty_line()\n        while lines > 0:\n            self.term.pop(row)\n            self.term.insert(self.scrollregion_end, blank)", "ALIAS|vterm.TermCanvas.remove_lines"),
     Mut("tabstops-before-width", _V, "TermCanvas.resize", "        if width > self.width:\n            # grow\n", "        if width > self.width:\n            self.init_tabstops(extend=True)\n            # grow\n", "ORDER|vterm.TermCanvas.resize"),
